@@ -57,13 +57,13 @@ P = {
  ["computeAllowedMethods unions all services whose root matches while dispatch uses the best one (D8, documented)"],
  TECH),
 "C10": (True,
- "Deductive proof over explicit exceptional edges that dispatch releases the services lock on every exit (also when the router or a route condition panics), closes an installed compressing writer on every exit, releases every compressor it acquired (ghost acquire/release counters balance on normal and exceptional exits), hands the recover handler the writer in use before closing it, and lets a panic escape only if recovery is off or the recover handler itself panicked; the same close/balance obligations for Container.ServeHTTP and the handler Handle registers.",
+ "Deductive proof over explicit exceptional edges that dispatch releases the services lock on every exit (also when the router or a route condition panics), closes an installed compressing writer on every exit, releases every compressor it acquired (ghost acquire/release counters balance on normal and exceptional exits), hands the recover handler the writer in use before closing it, and lets a panic escape only if recovery is off or the recover handler itself panicked; the same close/balance obligations for Container.ServeHTTP and the handler Handle registers; the default recover handler (logStackOnRecover) sends exactly one 500 and one body write and touches no header.",
  COMMON_ASSUME + "A-CB, A-CODEC, interface contracts at call sites.",
  ["panics inside net/http or the runtime"],
  TECH + ", exceptional postconditions"),
 "C11": (True,
- "Deductive proof over a ghost model of net/http.ServeMux's pattern set that Container.Add registers exactly the patterns of the new service (root and root+'/', '/' once) and never registers a pattern twice, so it cannot panic inside net/http under the distinct-roots precondition (roots differing only by a trailing slash included), that Remove rebuilds a mux holding exactly the patterns of the remaining services, that addHandler's closure dispatches, and that WebService.Route/RemoveRoute/Routes keep the route list consistent with its lock.",
- COMMON_ASSUME + "trusted model of ServeMux.HandleFunc/NewServeMux (pattern set; double registration panics), WebService.Path trusted.",
+ "Deductive proof over a ghost model of net/http.ServeMux's pattern set that Container.Add registers exactly the patterns of the new service (root and root+'/', '/' once) and never registers a pattern twice, so it cannot panic inside net/http under the distinct-roots precondition (roots differing only by a trailing slash included), that Remove rebuilds a mux holding exactly the patterns of the remaining services, that addHandler's closure dispatches, that Handle/HandleWithFilter add exactly the given pattern to the current mux, that WebService.Path records and compiles the root path, and that WebService.Route/RemoveRoute/Routes keep the route list consistent with its lock.",
+ COMMON_ASSUME + "trusted model of ServeMux.Handle/HandleFunc/NewServeMux (pattern set; double registration panics).",
  ["patterns registered through Container.Handle/HandleWithFilter are forgotten by Remove (D12, documented finding; repair needs a new field)", "ServeMux's own longest-pattern matching"],
  TECH),
 "C12": (True,
@@ -82,7 +82,7 @@ P = {
  ["that the compiled expressions themselves match p and p+'/' alike (regular-expression semantics; covered only by the bounded stand-in pool)", "ServeMux redirect behaviour for trailing slashes"],
  TECH + ", inductive lemmas"),
 "C15": (True,
- "Deductive proof that Response.Write adds exactly the count the underlying writer accepted and returns its results unchanged, that WriteHeader records and forwards the status once, of StatusCode/ContentLength, that CompressingResponseWriter forwards Write/WriteHeader/Header to the right target, that WriteHeaderAndEntity records the 406 it sends when no writer is available and otherwise hands the value to the chosen writer exactly once, and that writeXML/writeJSON record the status they send and — where they write the document themselves (pretty printing) — return the error of the last Write; all over a ghost model of an arbitrary http.ResponseWriter.",
+ "Deductive proof that every routed request gets a fresh Response that records status 200 and length 0, that Response.Write adds exactly the count the underlying writer accepted and returns its results unchanged, that WriteHeader records and forwards the status once, of StatusCode/ContentLength, that CompressingResponseWriter forwards Write/WriteHeader/Header to the right target, that WriteHeaderAndEntity records the 406 it sends when no writer is available and otherwise hands the value to the chosen writer exactly once, and that writeXML/writeJSON record the status they send and — where they write the document themselves (pretty printing) — return the error of the last Write; all over a ghost model of an arbitrary http.ResponseWriter.",
  COMMON_ASSUME + "assumed contract of http.ResponseWriter (Write accepts a prefix; error-free Write accepts all).",
  ["WriteAsJson/WriteAsXml/WriteError* paths and the streaming (non-pretty) encoders (dependencies; their writes through the Response are assumed, A-RT)", "lemma over call sequences"],
  TECH),
